@@ -211,7 +211,7 @@ fn legacy_cfg_0_4_18(rng: &mut Rng, sc: &Sc, v20: bool) -> Value {
         "validators": sc.validators,
         "batch_period": rng.range(1, 1_000_000),
         "unbonding_period": rng.range(1, 3_000_000),
-        "protocol_fee_config": {"dao_treasury_fee": rng.below128(100_001).to_string()},
+        "protocol_fee_config": {"dao_treasury_fee": (if rng.chance(1, 4) { 0 } else { rng.below128(100_001) }).to_string()},
         "multisig_address_config": {"staker_address": sc.staker, "reward_collector_address": sc.collector},
         "minimum_liquid_stake_amount": rng.below128(1_000_000).to_string(),
         "ibc_channel_id": sc.cfg.channel,
